@@ -250,7 +250,8 @@ ADVERSARIAL = [
     "`id`", ";rm", "a;b", "a|b", "a&b", "a'b", 'a"b', "a\\b", "a\\", "%s%s", "{0}", "~", "~root", "C:\\x",
     "\x00", "a\x00b", "\x01", "\x7f", "é", "e\u0301", "ß", "ẞ", "İ", "ı", "K", "\U0001F600", "\U00010000x",
     "\ufeffbom", "\u200b", "\u202e", "pid", "pi", "id", "PID", "Pid", "pid.", ".pid", "pidpid", "pid/pid",
-    "x" * 5000, "y" * 4999 + "/", "a=b", "a:b", "#frag", "?q=1", "http://x/y?z#w", "_delete", "p_delete",
+    "x" * 5000, "y" * 4999 + "/", "\u00e9" * 1500, "\u6f22" * 700 + "-A", "\u6f22" * 700 + "-B", "\U0001F600" * 400,
+    "z" * 1023 + "\u00e9", "z" * 1024 + "\u00e9" + "tail", "w" * 2048, "a=b", "a:b", "#frag", "?q=1", "http://x/y?z#w", "_delete", "p_delete",
 ]
 REJECTED_IDS = ["a b", "a\tb", "a\nb", "a\rb", "\x85x", "x\xa0", "\u1680", "a\u2028b", "a\u3000", "\x1c", " lead", "trail "]
 
@@ -264,6 +265,8 @@ class C18(SeqProp):
     def universe(self, rng, contents, store_alg):
         u = super().universe(rng, contents, store_alg)
         base = rng.sample(ADVERSARIAL, 4)
+        if rng.random() < 0.5:
+            base[0] = rng.choice([a for a in ADVERSARIAL if len(a) > 300])
         # pairs related by prefix / suffix / case
         root = rng.choice(base)
         u.pids = base + [root + "x", "x" + root, root.upper(), root.lower(), rng.choice(REJECTED_IDS)]
